@@ -327,6 +327,10 @@ func checkRefusalsClose(p *core.Program, r *core.Report, rule string, fn *ssa.Fu
 		switch core.CalleeName(c) {
 		case "(*github.com/gorilla/websocket.Upgrader).Upgrade", dialName:
 			conns = append(conns, in)
+		default:
+			if isDialInstr(in) {
+				conns = append(conns, in)
+			}
 		}
 	})
 	if len(conns) == 0 {
@@ -549,10 +553,9 @@ func checkSkiBinding(p *core.Program, r *core.Report, R4 string, skiFn *ssa.Func
 			v = core.Canon(v)
 			switch x := v.(type) {
 			case *ssa.Call:
-				n := core.CalleeName(&x.Call)
-				if n == "crypto/sha1.Sum" {
+				if hashed, ok := sha1Input(x); ok {
 					// its input must come from the certificate
-					if derivesFromCert(x.Call.Args[0], certParam, 10) {
+					if derivesFromCert(hashed, certParam, 10) {
 						found = true
 					}
 					return
@@ -709,7 +712,7 @@ func checkSkiBinding(p *core.Program, r *core.Report, R4 string, skiFn *ssa.Func
 			v = core.Canon(v)
 			switch x := v.(type) {
 			case *ssa.Call:
-				if core.CalleeName(&x.Call) == "crypto/sha1.Sum" {
+				if _, ok := sha1Input(x); ok {
 					okg = true
 					return
 				}
@@ -729,6 +732,64 @@ func checkSkiBinding(p *core.Program, r *core.Report, R4 string, skiFn *ssa.Func
 			}
 		}
 		walk(v, 0)
+		// what is hashed must be the fixed-length key encoding a library function produced (ecdh PublicKey.Bytes,
+		// elliptic.Marshal, the DER bit string): bytes assembled from big.Int.Bytes() drop leading zero bytes, so
+		// about one key in 128 gets a SubjectKeyId the verifier's digest does not match
+		if okg {
+			var sum *ssa.Call
+			core.EachInstr(gen, func(y ssa.Instruction) {
+				if c, ok := y.(*ssa.Call); ok {
+					if _, isSum := sha1Input(c); isSum {
+						sum = c
+					}
+				}
+			})
+			if sum != nil {
+				handBuilt := false
+				seen := map[ssa.Value]bool{}
+				var w2 func(v ssa.Value, d int)
+				w2 = func(v ssa.Value, d int) {
+					if d > 10 || v == nil || seen[v] || handBuilt {
+						return
+					}
+					seen[v] = true
+					switch x := core.Canon(v).(type) {
+					case *ssa.Call:
+						if core.CalleeName(&x.Call) == "(*math/big.Int).Bytes" {
+							handBuilt = true
+							return
+						}
+						if isBuiltin(x, "append") {
+							for _, a := range x.Call.Args {
+								w2(a, d+1)
+							}
+						}
+					case *ssa.Slice:
+						w2(x.X, d+1)
+					case *ssa.Phi:
+						for _, e := range x.Edges {
+							w2(e, d+1)
+						}
+					case *ssa.Alloc:
+						for _, ref := range *x.Referrers() {
+							if st, ok := ref.(*ssa.Store); ok && st.Addr == ssa.Value(x) {
+								w2(st.Val, d+1)
+							}
+						}
+					case *ssa.UnOp:
+						w2(x.X, d+1)
+					}
+				}
+				hashedArg, _ := sha1Input(sum)
+				w2(hashedArg, 0)
+				if handBuilt {
+					okg = false
+					r.Fail(R4, "generator hashes the canonical key encoding", p.Pos(sum.Pos()), "the generator hashes bytes it assembled from big.Int.Bytes(): a coordinate with a leading zero byte is encoded shorter, the SubjectKeyId then differs from the SHA-1 of the certificate's public key and the library's own certificate is refused by every peer")
+					return
+				}
+				r.OK(R4, "generator hashes the canonical key encoding", p.Pos(sum.Pos()), "library-produced fixed-length encoding")
+			}
+		}
 		if okg {
 			r.OK(R4, key, p.Pos(in.Pos()), "sha1.Sum(public key bytes)")
 		} else {
@@ -975,4 +1036,44 @@ func checkInboundIdentity(p *core.Program, r *core.Report, R1, R2 string) {
 			}
 		}
 	}
+}
+
+// sha1Input: c is crypto/sha1.Sum(x), or a call of a module-local wrapper whose every return is sha1.Sum of one of
+// its parameters; returns the hashed value (in terms of the caller).
+func sha1Input(c *ssa.Call) (ssa.Value, bool) {
+	if core.CalleeName(&c.Call) == "crypto/sha1.Sum" && len(c.Call.Args) == 1 {
+		return c.Call.Args[0], true
+	}
+	t := c.Call.StaticCallee()
+	if t == nil || t.Blocks == nil || len(t.Blocks) > 3 {
+		return nil, false
+	}
+	var arg ssa.Value
+	okAll, any := true, false
+	core.EachInstr(t, func(in ssa.Instruction) {
+		ret, isRet := in.(*ssa.Return)
+		if !isRet || len(ret.Results) != 1 {
+			return
+		}
+		any = true
+		inner, ok := core.Canon(core.ResultOf(ret, 0)).(*ssa.Call)
+		if !ok || core.CalleeName(&inner.Call) != "crypto/sha1.Sum" {
+			okAll = false
+			return
+		}
+		pa, ok := core.Canon(inner.Call.Args[0]).(*ssa.Parameter)
+		if !ok {
+			okAll = false
+			return
+		}
+		for i, q := range t.Params {
+			if q == pa && i < len(c.Call.Args) {
+				arg = c.Call.Args[i]
+			}
+		}
+	})
+	if okAll && any && arg != nil {
+		return arg, true
+	}
+	return nil, false
 }
